@@ -69,6 +69,8 @@ func FieldsFromStruct(t reflect.Type) TypesTable {
 
 	switch t.Kind() {
 	case reflect.Struct:
+		// Promoted members of embedded structs first; the same name coming from
+		// two embedded structs is ambiguous.
 		for i := 0; i < t.NumField(); i++ {
 			f := t.Field(i)
 
@@ -81,6 +83,11 @@ func FieldsFromStruct(t reflect.Type) TypesTable {
 					}
 				}
 			}
+		}
+
+		// The struct's own fields shadow promoted ones, wherever they are declared.
+		for i := 0; i < t.NumField(); i++ {
+			f := t.Field(i)
 
 			if f.PkgPath == "" { // exported
 				types[f.Name] = Tag{Type: f.Type}
